@@ -13,6 +13,7 @@ field "specAgrees"):
       (run r ops).2.map normOut = (StoreSpec.run (abs r) ops).2 ∧ abs (run r ops).1 = (StoreSpec.run (abs r) ops).1
 -/
 import Proofs.Lemmas.Store
+import Proofs.Lemmas.StoreEq
 
 set_option linter.unusedSimpArgs false
 
@@ -209,18 +210,19 @@ theorem C10_get_case_insensitive (r : Repo) (p q : Path) (pl : Option (List Name
   | none => rfl
   | some e => simp only [findCls_congr e.classes hcls]
 
-/-! ### the map laws (schemas without association classes) -/
+/-! ### the map laws -/
 
-/-- **Get after Create.**  After a successful CreateInstance, GetInstance on the returned path answers the
-    created instance: same class name, the returned path, and the same properties (names up to lexical
-    case – they take the case of the class declaration –, types, arrayness and values unchanged), filtered
-    by the PropertyList. -/
+/-- **Get after Create.**  After a successful CreateInstance (hypothesis `Tame` on that request: no association
+    classes, or reference values inside the request namespace), GetInstance on the returned path answers the
+    created instance: same class name, the returned path, and the same properties (names up to lexical case –
+    they take the case of the class declaration –, types, arrayness and values unchanged), filtered by the
+    PropertyList. -/
 theorem C10_create_then_get_partial (r r' : Repo) (nsArg : Option Name) (inst : Inst) (p : Path)
-    (pl : Option (List Name)) (hna : NoAssoc r) (h : stepCreate r nsArg inst = (r', .path p)) :
+    (pl : Option (List Name)) (ht : Tame r (.create nsArg inst)) (h : stepCreate r nsArg inst = (r', .path p)) :
     ∃ ps, (stepGet r' p pl).2 = .inst { cls := inst.cls, path := p, props := filterProps pl ps } ∧
       ps.map (fun q => (lower q.name, q.ty, q.isArr, q.val)) =
         inst.props.map (fun q => (lower q.name, q.ty, q.isArr, q.val)) := by
-  obtain ⟨c, hc⟩ := get_after_create pl hna h
+  obtain ⟨c, hc⟩ := get_after_create' pl ht h
   refine ⟨adjustNames c inst.props, hc, ?_⟩
   unfold adjustNames
   rw [List.map_map]
@@ -229,26 +231,28 @@ theorem C10_create_then_get_partial (r r' : Repo) (nsArg : Option Name) (inst : 
   have := adjustName_same c q
   simp [Function.comp, this.1, this.2.1, this.2.2.1, this.2.2.2]
 
-/-- **Create twice.**  Repeating a successful CreateInstance is refused with ALREADY_EXISTS and changes nothing. -/
+/-- **Create twice.**  Repeating a successful CreateInstance is refused with ALREADY_EXISTS and changes nothing
+    (partial: schemas without association classes). -/
 theorem C10_create_twice_already_exists_partial (r r' : Repo) (nsArg : Option Name) (inst : Inst) (p : Path)
     (hna : NoAssoc r) (h : stepCreate r nsArg inst = (r', .path p)) :
     stepCreate r' nsArg inst = (r', errExists) :=
   create_twice hna h
 
-/-- **Get after Delete.**  After a successful DeleteInstance, GetInstance on the same path answers NOT_FOUND. -/
+/-- **Get after Delete.**  After a successful DeleteInstance in a state satisfying the store invariant
+    (association instances reference their own namespace only), GetInstance on the same path answers NOT_FOUND. -/
 theorem C10_delete_then_get_not_found_partial (r r' : Repo) (path : Path) (pl : Option (List Name))
-    (hna : NoAssoc r) (h : stepDelete r path = (r', .unit)) :
+    (hinv : Inv r) (h : stepDelete r path = (r', .unit)) :
     (stepGet r' path pl).2 = errNotFound :=
-  get_after_delete pl hna h
+  get_after_delete' pl hinv h
 
-/-- **Delete touches one key only.**  GetInstance on any path with a different key – another namespace,
-    another class, other keybindings; compared in normal form – answers after the DeleteInstance what it
-    answered before. -/
-theorem C10_delete_frame_partial (r r' : Repo) (path q : Path) (pl : Option (List Name)) (hna : NoAssoc r)
+/-- **Delete touches one key only** (same hypothesis).  GetInstance on any path with a different key – another
+    namespace, another class, other keybindings; compared in normal form – answers after the DeleteInstance what
+    it answered before. -/
+theorem C10_delete_frame_partial (r r' : Repo) (path q : Path) (pl : Option (List Name)) (hinv : Inv r)
     (h : stepDelete r path = (r', .unit))
     (hne : keyIn q (effNs r q.ns) ≠ keyIn path (effNs r path.ns)) :
     (stepGet r' q pl).2 = (stepGet r q pl).2 :=
-  get_frame_delete pl hna h hne
+  get_frame_delete' pl hinv h hne
 
 /-! ### only documented status codes -/
 
@@ -319,5 +323,41 @@ def badInst : Inst :=
 
 theorem C10_type_error_witness : (stepCreate badRepo none badInst).2 = .err .typeError := by
   decide
+
+/-! ### the lookup predicate of the model is pywbem's path equality -/
+
+/-- **`CIMInstanceName.__eq__` decides equality of normal forms.**  The procedure of the code – `_eq_name` on host,
+    namespace and class name, `NocaseDict.__eq__` on the keybindings (every item of the left dict is looked up
+    case-insensitively in the right one and the values are compared with `==`, recursively for reference
+    values; then the lengths are compared) – answers True exactly when the two paths have the same normal form
+    (names lower-cased, keybindings sorted, booleans as integers), for all paths whose keybindings are
+    NocaseDicts.  So the model's dict lookup by normal form is lookup by `__eq__`. -/
+theorem C10_path_eq_is_normal_form (p q : Path) (hp : PathWF p) (hq : PathWF q) :
+    pyPathEq p q = true ↔ normPath p = normPath q :=
+  Proofs.StoreEq.pyPathEq_iff_normPath p q hp hq
+
+/-- non-vacuity: a path with two keybindings, one of them a reference -/
+def demoEndPath : Path0 :=
+  { cls := "TST_P".toList, ns := some "root/a".toList, host := none, keys := [("name".toList, Scalar.str "x".toList)] }
+def demoPathWF : Path :=
+  { cls := "TST_L".toList, ns := some "root/a".toList, host := none,
+    keys := [("parent".toList, KV.ref demoEndPath), ("w".toList, KV.sc (Scalar.int 1))] }
+
+example : PathWF demoPathWF := by
+  refine ⟨by unfold KeysWF demoPathWF; decide, ?_⟩
+  intro e he
+  simp [demoPathWF] at he
+  rcases he with rfl | rfl
+  · unfold KVWF KeysWF demoEndPath; decide
+  · trivial
+
+/-- without the NocaseDict hypothesis the equivalence fails: keybinding lists with a repeated name -/
+def dupL : Path := { cls := "C".toList, ns := none, host := none,
+                     keys := [("a".toList, KV.sc (Scalar.int 1)), ("A".toList, KV.sc (Scalar.int 1))] }
+def dupR : Path := { cls := "C".toList, ns := none, host := none,
+                     keys := [("a".toList, KV.sc (Scalar.int 1)), ("b".toList, KV.sc (Scalar.int 5))] }
+
+theorem C10_path_eq_is_normal_form_fails_without_nocasedict :
+    ¬ (pyPathEq dupL dupR = true ↔ normPath dupL = normPath dupR) := by decide
 
 end C10
